@@ -74,10 +74,11 @@ claim('C09', 'per-iteration path analysis of the context loop in AssociationAcce
       'table, _loop serving only recorded contexts, reply header copied from the request.',
       'Trusted: CPython membership tests and list ordering. Holds for every request and configuration because the paths do not '
       'depend on them.', 'DESIGN.md section 3 C09')
-claim('C10', 'control-dependence rules on every assignment of the negotiated limit (sibling cross-check), zero-safety of its uses',
+claim('C10', 'control-dependence rules on every assignment of the negotiated limit (sibling cross-check), zero-safety of its uses, evaluation of the extracted fragment-width term at the boundary values of the limit',
       'Every adoption of the peer\'s value is shown conditional on peer != 0 and (own > peer or own == 0) on both sides; the '
       'announced values are the own (possibly clamped) limit; the limit reaches encode at its single call site; a limit of 0 is '
-      'treated as "no limit" by both fragmenters and by the provider\'s socket read.',
+      'treated as "no limit" by both fragmenters and by the provider\'s socket read; the fragment-width term of both fragmenters '
+      'satisfies 1 <= width <= limit - overhead at the boundary values 0, overhead+1 .. 2^32-1.',
       'Not decided: peers announcing 1..6. Trusted: PS3.8 Annex D.1.', 'DESIGN.md section 3 C10')
 claim('C11', 'shape rules on id allocation (parity induction), provenance of the request fields and of the accepted-context tables, exception-flow of get_scu',
       'Ids: 1 or max+2 with step 2 (odd, increasing, distinct); request fields (AE titles, application context, maximum length '
